@@ -335,6 +335,13 @@ class Interp:
         if isinstance(obj, ClassVal):
             obj.attrs[name] = value
             return
+        from .symval import VecFlags
+        if isinstance(obj, VecFlags) and name == "writeable":
+            t = self.truth(value)
+            if t not in (sp.true, sp.false):
+                raise AnalysisError("ndarray.flags.writeable set to a symbolic value")
+            obj.set_writeable(t is sp.true)
+            return
         raise AnalysisError(f"attribute store on {obj!r}")
 
     def hasattr(self, obj, name):
@@ -362,6 +369,9 @@ class Interp:
         if r is None:
             if name in self.builtins:
                 return self.builtins[name]
+            if name in ("__name__", "__package__"):
+                pkg = "periodictable"
+                return pkg if module == "__init__" or name == "__package__" else f"{pkg}.{module}"
             raise AnalysisError(f"name {name} in module {module} cannot be resolved")
         if r[0] == "func":
             q = r[1]
@@ -731,6 +741,8 @@ class Interp:
                 return True
             if isinstance(cur, Vec):
                 # numpy arrays are updated in place (a row view stays a view of its table)
+                if getattr(cur, "readonly", False):
+                    raise SymRaise("ValueError", "output array is read-only")
                 res = self.lib.binop(self, st.op, cur, rhs)
                 if isinstance(res, Vec) and len(res) == len(cur):
                     cur.items[:] = res.items
@@ -1071,6 +1083,8 @@ class Interp:
                 base[self.lib.dict_key(self, base, key)] = value
             elif isinstance(base, list):
                 base[key] = value
+            elif isinstance(base, Vec) and getattr(base, "readonly", False):
+                raise SymRaise("ValueError", "assignment destination is read-only")
             elif isinstance(base, Vec) and isinstance(key, int):
                 base.items[key] = value
             elif isinstance(base, Vec) and isinstance(key, Vec):
